@@ -64,6 +64,8 @@ func (p *Preprocessor) CFG(graph *cfg.CFG, funcDecl *ast.FuncDecl) *cfg.CFG {
 	// split blocks do not require the CFG to be in canonical form, and it may modify the CFG
 	// structure in a way that it needs to be re-canonicalized. Here, we cleverly bundles the two
 	// operations together such that we only need to run canonicalization once.
+	p.taggedSwitchCaseExprs = collectTaggedSwitchCaseExprs(funcDecl)
+
 	for _, block := range graph.Blocks {
 		if block.Live {
 			p.restructureOnNoReturnCall(block)
@@ -301,6 +303,12 @@ func (p *Preprocessor) canonicalizeConditional(graph *cfg.CFG, thisBlock *cfg.Bl
 		return
 	}
 
+	// The case expression of a tagged switch is compared with the tag; it is not itself the branch condition
+	// (markSwitchStatements synthesizes `tag == e` later, and relies on the successor order of the CFG builder).
+	if p.taggedSwitchCaseExprs[cond] {
+		return
+	}
+
 	switch cond := cond.(type) {
 	case *ast.ParenExpr:
 		// if a parenexpr, strip and restart - this is done with recursion to account for ((((x)))) case
@@ -454,6 +462,24 @@ func collectChildren(funcDecl *ast.FuncDecl) (map[ast.Node]*ast.RangeStmt, map[a
 	})
 
 	return rangeChildren, switchChildren, typeSwitchChildren
+}
+
+// collectTaggedSwitchCaseExprs returns the set of case expressions of all tagged switch statements in funcDecl.
+func collectTaggedSwitchCaseExprs(funcDecl *ast.FuncDecl) map[ast.Node]bool {
+	exprs := make(map[ast.Node]bool)
+	ast.Inspect(funcDecl, func(node ast.Node) bool {
+		if n, ok := node.(*ast.SwitchStmt); ok && n.Tag != nil && n.Body != nil {
+			for _, stmt := range n.Body.List {
+				if cc, ok := stmt.(*ast.CaseClause); ok {
+					for _, e := range cc.List {
+						exprs[e] = true
+					}
+				}
+			}
+		}
+		return true
+	})
+	return exprs
 }
 
 // markRangeStatements rewrites a cfg to reflect ranging loops - the assignments in a `for... range y {}`
